@@ -691,7 +691,7 @@ def _hl_rational(prog, dh, dv, dl):
 
 def scenarios_random(tier, rng):
     out = []
-    n_mc, n_hl = (250, 150) if tier == 'quick' else (5000, 2500)
+    n_mc, n_hl = (200, 100) if tier == 'quick' else (4000, 2000)
     while len(out) < n_mc:
         prog = [random_prim(rng, 'MC') for _ in range(rng.randint(2, 8))]
         if rng.random() < 0.3:
@@ -846,7 +846,11 @@ def report(out, traces, scs, bad):
         t = traces[i]
         sc = dict(scs[i])
         sc['sched'] = {'kind': 'script', 'script': t['schedule']}
-        around = t['ev'][max(0, at - 4):at + 2] if at else t['ev'][-6:]
+        if at:
+            around = t['ev'][max(0, at - 4):at + 2]
+        else:       # judged at the end of the trace: what happened from the exit / land() call on
+            ix = max([i for i, e in enumerate(t['ev']) if e['e'] == 'exit'] or [0])
+            around = [e for e in t['ev'][max(0, ix - 2):] if e['e'] not in ('tick', 'wake')][:10]
         out.violation(signature(t, clause, at), clause,
                       {'helper': t['helper'], 'mode': t['mode'], 'program': t['prog'], 'defaults_mm': [t['dh'], t['dv'], t['dl']],
                        'outcome': t['outcome'], 'escaped_exception': t['exc'], 'event_index': at, 'events': around},
@@ -921,6 +925,14 @@ def main(tier, seed, replay=None):
     out.conformance['code_to_spec'] = {'traces': len(all_traces), 'explained_by_design_spec': len(all_traces) - drift - len(bad),
                                        'drift_without_rejection': drift, 'rejected_by_monitor': len(bad)}
     report(out, all_traces, all_scs, bad)
+    import collections
+    dk = collections.Counter()
+    for t in all_traces:
+        if t['verdict'][0] == 'ok' and not t['verdict'][2]:
+            at = t['verdict'][3]
+            prev = [e['e'] for e in t['ev'][max(0, at - 3):at - 1] if e['e'] not in ('tick', 'wake')]
+            dk['%s after %s' % (t['ev'][at - 1]['e'], '+'.join(prev) or '-')] += 1
+    out.extra['drift_by_event'] = dict(dk)
     out.extra['drift_examples'] = [{'helper': t['helper'], 'program': t['prog'], 'schedule_kind': sc['sched']['kind'],
                                     'at_event': t['verdict'][3], 'events': t['ev'][max(0, t['verdict'][3] - 3):t['verdict'][3]]}
                                    for t, sc in zip(all_traces, all_scs) if t['verdict'][0] == 'ok' and not t['verdict'][2]][:5]
@@ -946,7 +958,7 @@ def main(tier, seed, replay=None):
     for name in MUTANTS.names():
         helper = name.split(':')[0]
         pool = [i for i in good if all_scs[i]['helper'] == helper and len(all_scs[i]['prog']) >= 2]
-        step = max(1, len(pool) // (40 if tier == 'quick' else 150))
+        step = max(1, len(pool) // (25 if tier == 'quick' else 150))
         for i in pool[::step]:
             jobs.append((all_scs[i], name))
             owner.append(name)
